@@ -223,6 +223,12 @@ def worker_main(argv):
         mod = importlib.import_module(f'props.{prop.lower()}')
         ctx = Ctx(prop, tier, seed, desc['shard'], deadline=time.time() + desc['deadline_s'], only_case=only_case)
         mod.run_shard(desc['shard'], ctx)
+        try:
+            from . import ops as _ops
+            for k, v in _ops.FORMS_USED.items():
+                ctx.count('calls_via_' + k, v)
+        except Exception:
+            pass
         out = ctx.result()
         out['ok'] = True
     except Inconclusive as e:
